@@ -387,13 +387,22 @@ func closeOnExecAllFds() error {
 }
 
 func maskPath(path string) error {
-	// bind mount /dev/null if it is file
-	if err := syscall.Mount("/dev/null", path, "", syscall.MS_BIND, ""); err != nil && !errors.Is(err, os.ErrNotExist) {
-		if errors.Is(err, syscall.ENOTDIR) {
-			// otherwise, mount tmpfs to mask it
-			return syscall.Mount("tmpfs", path, "tmpfs", syscall.MS_RDONLY, "")
+	// nothing to mask if the path does not exist in the container
+	fi, err := os.Lstat(path)
+	if err != nil {
+		if errors.Is(err, os.ErrNotExist) {
+			return nil
 		}
 		return fmt.Errorf("mask path: %w", err)
+	}
+	// mount tmpfs to mask a directory
+	if fi.IsDir() {
+		return syscall.Mount("tmpfs", path, "tmpfs", syscall.MS_RDONLY, "")
+	}
+	// bind mount /dev/null if it is file; a mask that cannot be applied (e.g. no /dev/null
+	// inside the container) is an error rather than a silently unmasked path
+	if err := syscall.Mount("/dev/null", path, "", syscall.MS_BIND, ""); err != nil {
+		return fmt.Errorf("mask path: %s: %w", path, err)
 	}
 	return nil
 }
